@@ -39,6 +39,41 @@ CHECKS = {
              "slot state across seeded walks and checks sum, returned width, overflow report and that no byte beyond "
              "the allowed footprint changes.",
         ref="DESIGN.md 4/C12", technique="TLA+ state machine (AddModel) explored by TLC, edges replayed on the code, TLC trace validation"),
+    "C02": dict(
+        text="The array codecs are specified as a register (StoreTrace.tla): Encode stores a sequence, every reader "
+             "(full decode, random access, block access) is a function of it. TLC enumerates the scenario space "
+             "(Scenarios.tla: codec x parameter x length class straddling 127/128/129, 240/241, 2287/2288, "
+             "4095/4096/4097, 65535/65536 x value shape straddling byte/bit widths incl. marker coincidence, 9-byte "
+             "values, 64-bit blocks); the driver runs the real encoders/decoders on every leaf with the decoder reading "
+             "an exact-size guard-page copy of exactly the bytes the encoder reported, and TLC validates every event "
+             "(decoded sequence = input, bytes consumed, random access = full decode).",
+        ref="DESIGN.md 4/C02", technique="TLA+ register spec + TLC-enumerated scenarios + TLC trace validation with guard-page buffers"),
+    "C03": dict(
+        text="Each Encode event carries the value the real sizing function returned for that input and the bytes "
+             "written; the trace spec requires written <= advertised (= for predictors documented as exact), and a "
+             "second encode into a destination of exactly the advertised size ending at a PROT_NONE page must not "
+             "fault. Scenarios are the worst cases of each bound, enumerated by TLC (9-byte values, 64-bit blocks, "
+             "outliers at the end, all-unique, sampler-misleading periodic data, every forced adaptive encoding).",
+        ref="DESIGN.md 4/C03", technique="TLA+ size contract in the trace spec + TLC-enumerated worst-case scenarios + guard-page destinations"),
+    "C06": dict(
+        text="Adaptive encode/decode is held to the same register contract as the plain codecs, with the selector left "
+             "nondeterministic (any encoding may be chosen; the first byte must name it and equal the reported type); "
+             "TLC enumerates scenario leaves aimed at every branch of the documented decision tree (orders, duplicate "
+             "patterns, bitmap range, outlier ratios around 5%, exact vs sampled uniqueness around 10000) and every "
+             "forced encoding on its documented domain.",
+        ref="DESIGN.md 4/C06", technique="TLA+ register spec with nondeterministic selector + TLC-enumerated decision-tree scenarios + trace validation"),
+    "C13": dict(
+        text="For every capacity-taking decoder the driver decodes valid encodings into an output array of exactly "
+             "`capacity` elements ending at a PROT_NONE page, for capacities 0, 1, n/2, n-1 and block boundaries; the "
+             "library's own heap blocks are end-fenced too (allocator shim) so internal scratch overruns fault. The "
+             "trace spec accepts only: no fault, and result 0 or a correct prefix of at most `capacity` elements.",
+        ref="DESIGN.md 4/C13", technique="TLA+ capacity contract + TLC-enumerated scenarios + trace validation with guard pages and fenced heap"),
+    "C16": dict(
+        text="Every metadata field an encoder reports and every header accessor result is compared by TLC with ground "
+             "truth computed in TLA+ from the input values (count, min, max, range, offset width, run count, sum of "
+             "Elias code lengths, block count, last-block size) or from the stream header (PFOR width byte, adaptive "
+             "type byte, bytes written).",
+        ref="DESIGN.md 4/C16", technique="TLA+ ground-truth functions (Limbs/StoreTrace) + trace validation of reported metadata"),
 }
 
 
